@@ -83,6 +83,13 @@ Theorem C10_history_example :
   expected_resolution c o h "c1" = Some [("10.0.0.1:80", 3%N)].
 Proof. exact C10_history_example_proof. Qed.
 
+(** the statement evaluated on the implementation against the MESSAGES the control plane sent ([src_spec]: the
+    cluster and load assignments as read back from the bytes by the independent summariser, decoded by the model
+    decoders whose field preservation is C12) holds of the model *)
+Theorem C10_spec_from_messages_of_model : forall c, rs_obs (r2_case c) = resolve (src_cluster c) (src_eds c) -> src_spec c = true.
+Proof. exact src_spec_model. Qed.
+Print Assumptions C10_spec_from_messages_of_model.
+
 (** the executable statement evaluated on the implementation holds of the model's own result *)
 Theorem C10_spec_of_model : forall cl eds desc,
   res_spec {| rs_cluster := cl; rs_eds := []; rs_desc := desc; rs_obs := resolve cl eds;
